@@ -409,6 +409,13 @@ pub fn op_elg(a: &[&str]) -> String {
             if d.set_compression_batch_size(std::num::NonZeroUsize::new(33).unwrap()).is_err() { return "variant-mismatch:batch".into() }
             let r4 = d.decode_u32();
             if r3 != r1 || r4 != r1 { return format!("variant-mismatch:{:?}:{:?}:{:?}", r1, r3, r4) }
+            // a thread count the instance accepts must never change the answer (3 and 6 are refused today)
+            for t in [3usize, 6] {
+                let mut d = ct.decrypt(&sk);
+                if d.num_threads(std::num::NonZeroUsize::new(t).unwrap()).is_ok() && d.decode_u32() != r1 {
+                    return format!("variant-mismatch:threads{}", t);
+                }
+            }
             match r1 { Some(x) => format!("some:{}", x), None => "none".into() }
         }
         ["op", ty, op, x, y] => match (*ty, *op) {
@@ -521,19 +528,25 @@ pub fn op_dlogseq(a: &[&str]) -> String {
     let [t, _k, seq] = a else { return "bad-op".into() };
     let Some(tb) = unhex(t) else { return "bad-op".into() };
     let Some(p) = curve25519_dalek::ristretto::CompressedRistretto::from_slice(&tb).ok().and_then(|c| c.decompress()) else { return "bad-op".into() };
-    let mut d = DiscreteLog::new_for_g(p);
-    for tok in seq.split('+') {
-        if tok == "-" { continue; }
-        let (tok, lenient) = match tok.strip_suffix('?') { Some(x) => (x, true), None => (tok, false) };
-        let Some(n) = tok.get(1..).and_then(|x| x.parse::<usize>().ok()).and_then(NonZeroUsize::new) else { return "bad-op".into() };
-        let r = match tok.as_bytes()[0] {
-            b't' => d.num_threads(n).is_err(),
-            b'b' => d.set_compression_batch_size(n).is_err(),
-            _ => return "bad-op".into(),
-        };
-        if r && !lenient { return "err".into() }
+    #[allow(deprecated)]
+    let ctors = [DiscreteLog::new_for_g(p), DiscreteLog::new(curve25519_dalek::constants::RISTRETTO_BASEPOINT_POINT, p)];
+    let mut results = vec![];
+    for mut d in ctors {
+        for tok in seq.split('+') {
+            if tok == "-" { continue; }
+            let (tok, lenient) = match tok.strip_suffix('?') { Some(x) => (x, true), None => (tok, false) };
+            let Some(n) = tok.get(1..).and_then(|x| x.parse::<usize>().ok()).and_then(NonZeroUsize::new) else { return "bad-op".into() };
+            let r = match tok.as_bytes()[0] {
+                b't' => d.num_threads(n).is_err(),
+                b'b' => d.set_compression_batch_size(n).is_err(),
+                _ => return "bad-op".into(),
+            };
+            if r && !lenient { return "err".into() }
+        }
+        results.push(d.decode_u32());
     }
-    match d.decode_u32() { Some(x) => format!("some:{}", x), None => "none".into() }
+    if results[0] != results[1] { return format!("variant-mismatch:{:?}:{:?}", results[0], results[1]) }
+    match results[0] { Some(x) => format!("some:{}", x), None => "none".into() }
 }
 
 /// 32-bit discrete log under a configuration (C10)
@@ -547,14 +560,21 @@ pub fn op_dlog(a: &[&str]) -> String {
     };
     let Some(tb) = unhex(t) else { return "bad-op".into() };
     let Some(p) = curve25519_dalek::ristretto::CompressedRistretto::from_slice(&tb).ok().and_then(|c| c.decompress()) else { return "bad-op".into() };
-    let mut d = DiscreteLog::new_for_g(p);
-    if *threads != "-" {
-        let Some(n) = threads.parse::<usize>().ok().and_then(NonZeroUsize::new) else { return "bad-op".into() };
-        if d.num_threads(n).is_err() { return "err".into() }
+    // both constructors (the deprecated generic one with G), configured identically, must agree
+    #[allow(deprecated)]
+    let ctors = [DiscreteLog::new_for_g(p), DiscreteLog::new(curve25519_dalek::constants::RISTRETTO_BASEPOINT_POINT, p)];
+    let mut results = vec![];
+    for mut d in ctors {
+        if *threads != "-" {
+            let Some(n) = threads.parse::<usize>().ok().and_then(NonZeroUsize::new) else { return "bad-op".into() };
+            if d.num_threads(n).is_err() { return "err".into() }
+        }
+        if *batch != "-" {
+            let Some(n) = batch.parse::<usize>().ok().and_then(NonZeroUsize::new) else { return "bad-op".into() };
+            if d.set_compression_batch_size(n).is_err() { return "err".into() }
+        }
+        results.push(d.decode_u32());
     }
-    if *batch != "-" {
-        let Some(n) = batch.parse::<usize>().ok().and_then(NonZeroUsize::new) else { return "bad-op".into() };
-        if d.set_compression_batch_size(n).is_err() { return "err".into() }
-    }
-    match d.decode_u32() { Some(x) => format!("some:{}", x), None => "none".into() }
+    if results[0] != results[1] { return format!("variant-mismatch:{:?}:{:?}", results[0], results[1]) }
+    match results[0] { Some(x) => format!("some:{}", x), None => "none".into() }
 }
